@@ -184,7 +184,8 @@ let () =
               | Ok ((entries, cells), missing) ->
                   let arr = Array.of_list cells in
                   let line e =
-                    let deps = List.sort compare (List.map (fun id -> bytes_to_hexs arr.(int_of_nat id).rc_name) e.e_deps) in
+                    (* in the order read_rawcells leaves them (in-place resolution with swap-with-last removal): not sorted *)
+                    let deps = List.map (fun id -> bytes_to_hexs arr.(int_of_nat id).rc_name) e.e_deps in
                     " K " ^ bytes_to_hexs e.e_key ^ " " ^ bytes_to_hexs e.e_cell.rc_name ^ " " ^ string_of_int (int_of_n e.e_cell.rc_off) ^
                     " " ^ string_of_int (int_of_n e.e_cell.rc_size) ^ " D" ^ String.concat "" (List.map (fun d -> " " ^ d) deps) in
                   out id "M" ("RAW " ^ string_of_int (List.length entries) ^ String.concat "" (List.sort compare (List.map line entries)) ^
